@@ -110,6 +110,15 @@ StepEvent(ev, n) ==
     /\ verdict' = verdict
          \o Check(DeltaDom(ev.delta) = {}, n, ev.clause, DeltaDom(ev.delta))
          \o (IF ev.qclause # "" THEN Check(Len(ev.stored) = 0, n, ev.qclause, Touched(ev.stored)) ELSE <<>>)
+  ELSE IF ev.k = "Q" THEN
+    \* A read-only public call (C29): whether it returned or raised, nothing may have changed.
+    /\ obs' = o2
+    /\ mdl' = Resync(mdl, o2, DeltaDom(ev.delta))
+    /\ sch' = sch2
+    /\ snaps' = Append(snaps, o2)
+    /\ verdict' = verdict
+         \o Check(DeltaDom(ev.delta) = {}, n, "C29.unchanged", DeltaDom(ev.delta))
+         \o Check(sch2 = sch, n, "C29.schema", {})
   ELSE IF ev.k = "F" THEN
     \* A call that raised (C04): nothing may have changed, the schema is the metadata's.
     /\ obs' = o2
@@ -122,6 +131,8 @@ StepEvent(ev, n) ==
          \* the undo / redo of a bundle that succeeded must itself be applicable
          \o Check(ev.tag # "undo", n, "C01.applies", {})
          \o Check(ev.tag # "redo", n, "C03.applies", {})
+         \* a Calculate that must be silent (after a failed bundle / after read-only calls) must not raise
+         \o (IF ev.tag = "quiet" THEN Fail(n, ev.clause, {}) ELSE <<>>)
          \o Check(SchemaMatchesMeta(o2, sch2), n, "C08.schema", SchemaDiff(o2, sch2))
   ELSE
     LET m2   == ApplyAll(mdl, ev.stored)
